@@ -92,6 +92,7 @@ type FwdCli struct {
 func init() {
 	Register(&Scenario{
 		Name:     "rev",
+		LazyToo:  true,
 		DescToo:  true,
 		Property: "C16",
 		Cfg:      vsched.Config{Horizon: 10 * time.Second},
